@@ -804,17 +804,23 @@ func extErrorsIs(fr *frame, args []value) value {
 	return false
 }
 
-// time.now: (sec int64, nsec int32, mono int64) — symbolic non-decreasing clock.
+// time.now: (sec int64, nsec int32, mono int64). By default a concrete clock
+// that advances one second per call; with vf.SymbolicTime() a fresh symbolic
+// non-decreasing instant.
 func extTimeNow(fr *frame, args []value) value {
 	c := fr.i.ctx
+	if !c.symTime {
+		c.clock++
+		sec := int64(1_700_000_000) + c.clock
+		return tuple{sec, int32(0), c.clock * 1_000_000_000}
+	}
 	sec := c.newVar("time.sec", types.Int64).(symv)
-	// constrain to a sane range: [0, 2^40)
 	c.assume(mkCmp(opUlt, sec.t, mkConst(64, 1<<40)))
 	if c.lastTime != nil {
 		c.assume(mkCmp(opSle, c.lastTime, sec.t))
 	}
 	c.lastTime = sec.t
-	return tuple{sec, int32(0), mkSym(types.Int64, mkBin(opMul, sec.t, mkConst(64, 1000000000)))}
+	return tuple{sec, int32(0), int64(0)}
 }
 
 // ---------------------------------------------------------------------------
